@@ -82,6 +82,7 @@ type HarnessSpec struct {
 	Opts    ExecOpts `json:"opts"`
 	MaxPaths int     `json:"max_paths"`
 	Note    string   `json:"note"`
+	NoNative bool    `json:"no_native"` // virtual-time harness: cannot be replayed against the real clock
 }
 
 type PathStats struct {
